@@ -241,19 +241,36 @@ func jsonRebuild(k *K, t *trie.Trie, what string) *trie.Trie {
 	holds, _ := k.stash["heldJSON"].([]heldJSON)
 	calls, _ := k.stash["jsonCalls"].(int)
 	k.stash["jsonCalls"] = calls + 1
+	var members []string
+	longest := 0
+	t.ForEach(func(x []byte) bool { members = append(members, string(x)); longest = max(longest, len(x)); return true })
+	sort.Strings(members)
+	// Open known finding json-nesting-limit: the JSON form nests two levels per
+	// byte of a member and encoding/json refuses documents nested deeper than
+	// 10000, so a trie with a member of 5000 bytes or more cannot be marshalled
+	// (nor read back). Matched ONLY by that error for such a trie.
+	nestingLimit := func(err error) bool {
+		if err != nil && longest >= 5000 && strings.Contains(err.Error(), "exceeded max depth") {
+			k.Input("longest_member_bytes", longest)
+			k.KnownFinding("json-nesting-limit", "a trie with a member of 5000 bytes or more cannot be written to or rebuilt from JSON: encoding/json refuses the nesting depth (\"exceeded max depth\")")
+			return true
+		}
+		return false
+	}
 	b, err := json.Marshal(t)
 	if err != nil {
-		k.Failf("json", "%s: Marshal failed: %v", what, err)
+		if !nestingLimit(err) {
+			k.Failf("json", "%s: Marshal failed: %.300v", what, err)
+		}
 		return nil
 	}
 	direct, err := t.MarshalJSON()
 	if err != nil {
-		k.Failf("json", "%s: MarshalJSON failed: %v", what, err)
+		if !nestingLimit(err) {
+			k.Failf("json", "%s: MarshalJSON failed: %.300v", what, err)
+		}
 		return nil
 	}
-	var members []string
-	t.ForEach(func(x []byte) bool { members = append(members, string(x)); return true })
-	sort.Strings(members)
 	// earlier held results must still rebuild what they were taken from
 	for len(holds) > 0 && (len(holds) > 2 || calls%2 == 1) {
 		h := holds[0]
@@ -300,7 +317,9 @@ func jsonRebuild(k *K, t *trie.Trie, what string) *trie.Trie {
 		k.Count("unmarshal_into_emptied", 1)
 	}
 	if err := json.Unmarshal(b, t2); err != nil {
-		k.Failf("json", "%s: Unmarshal of %s failed: %v", what, b, err)
+		if !nestingLimit(err) {
+			k.Failf("json", "%s: Unmarshal of %.300s failed: %.300v", what, b, err)
+		}
 		return nil
 	}
 	k.Count("json_roundtrips", 1)
@@ -358,6 +377,9 @@ func init() {
 			{Name: "random", QShards: 10, TShards: 14, Run: c15Random},
 			{Name: "fanout", Run: c15Fanout},
 			{Name: "parallel", Race: true, Run: trieParallel},
+			firstCallUnit(firstTrie),
+			{Name: "bigshapes", TShards: 2, Run: c15BigShapes},
+			{Name: "longmembers", Run: c15LongMembers},
 		},
 	})
 }
@@ -607,5 +629,172 @@ func c15Fanout(c *Ctx) {
 			})
 			idx++
 		}
+	}
+}
+
+// bigTrie builds one of two large shapes and returns the trie with its member
+// set: a "comb" (a spine of the given depth with a side leaf at every node) or a
+// "stack" (depth levels of nodes with width children each, along one path).
+// Both put a long path of BRANCHING nodes under ForEach's cursor — total fan-out
+// along one root-to-leaf path in the thousands — which neither long single keys
+// nor one very wide node do.
+func bigTrie(shape string, depth, width int) (*trie.Trie, map[string]bool) {
+	t := trie.New()
+	members := map[string]bool{}
+	var prefix []byte
+	for l := 0; l < depth; l++ {
+		cont := byte(l % width) // the child the path continues through
+		for ch := 0; ch < width; ch++ {
+			if byte(ch) == cont && l < depth-1 {
+				continue
+			}
+			key := append(append([]byte{}, prefix...), byte(ch))
+			t.Add(key)
+			members[string(key)] = true
+		}
+		prefix = append(prefix, cont)
+	}
+	return t, members
+}
+
+func c15BigShapes(c *Ctx) {
+	type shape struct {
+		name         string
+		depth, width int
+	}
+	shapes := []shape{{"comb", 3000, 2}, {"comb", 2100, 3}, {"stack", 24, 200}, {"stack", 20, 256}, {"stack", 70, 64}}
+	if c.Thorough {
+		shapes = append(shapes, shape{"comb", 4900, 2}, shape{"comb", 8000, 2}, shape{"stack", 300, 256}, shape{"stack", 1000, 17})
+	}
+	for i, sh := range shapes {
+		c.Case(int64(i), func(k *K) {
+			k.Input("shape", fmt.Sprintf("%s depth=%d width=%d", sh.name, sh.depth, sh.width))
+			t, members := bigTrie(sh.name, sh.depth, sh.width)
+			check := func(t *trie.Trie, what string) bool {
+				seen := map[string]int{}
+				n := 0
+				t.ForEach(func(b []byte) bool {
+					seen[string(b)]++
+					n++
+					return n <= len(members)+5
+				})
+				if n != len(members) {
+					k.Failf("foreach", "%s: ForEach reported %d members, the trie has %d", what, n, len(members))
+					return false
+				}
+				for m := range members {
+					if seen[m] != 1 {
+						k.Failf("foreach", "%s: member %.40q (length %d) reported %d times", what, m, len(m), seen[m])
+						return false
+					}
+				}
+				// Has on every member, on every prefix of the longest one, and on non-members
+				longest := ""
+				for m := range members {
+					if !t.Has([]byte(m)) || t.Has([]byte(m+"\xfe\xfd")) {
+						k.Failf("has", "%s: Has is wrong at member %.40q (length %d)", what, m, len(m))
+						return false
+					}
+					if len(m) > len(longest) {
+						longest = m
+					}
+				}
+				for j := 0; j <= len(longest); j += 1 + len(longest)/300 {
+					if !t.Has([]byte(longest[:j])) {
+						k.Failf("has", "%s: a prefix of length %d of a member is not found", what, j)
+						return false
+					}
+				}
+				return true
+			}
+			if !check(t, "as built") {
+				return
+			}
+			// a stopped walk, then a complete one; the JSON round trip; a Delete deep down
+			n := 0
+			t.ForEach(func([]byte) bool { n++; return n < len(members)/2 })
+			if !check(t, "after a walk stopped half-way") {
+				return
+			}
+			if t2 := jsonRebuild(k, t, "big shape"); t2 == nil || !check(t2, "rebuilt from JSON") {
+				return
+			}
+			var deepest string
+			for m := range members {
+				if len(m) > len(deepest) {
+					deepest = m
+				}
+			}
+			if !t.Delete([]byte(deepest)) {
+				k.Failf("delete", "Delete of the deepest member (length %d) returned false", len(deepest))
+				return
+			}
+			delete(members, deepest)
+			if sh.width == 2 && len(deepest) > 1 {
+				// its sibling stays; in a comb of width 2 nothing else changes
+			}
+			ok := true
+			for m := range members { // the model after the Delete: every other member is still there
+				if !t.Has([]byte(m)) {
+					ok = false
+				}
+			}
+			if !ok || t.Has([]byte(deepest)) && !hasPrefixMember(members, deepest) {
+				k.Failf("delete", "after deleting the deepest member, Has is wrong")
+				return
+			}
+			k.Count("big_shapes", 1)
+			k.Count("big_shape_members", int64(len(members)))
+			k.Nontrivial([]byte(fmt.Sprint(sh)))
+		})
+	}
+}
+
+func hasPrefixMember(members map[string]bool, p string) bool {
+	for m := range members {
+		if strings.HasPrefix(m, p) {
+			return true
+		}
+	}
+	return false
+}
+
+// c15LongMembers: members of 1000 … 100000 bytes next to short ones: Add, Has on
+// prefixes and extensions, ForEach, the JSON round trip, Delete by a prefix.
+func c15LongMembers(c *Ctx) {
+	lengths := []int{1000, 4000, 4998, 4999, 5000, 5001, 6000}
+	if c.Thorough {
+		lengths = append(lengths, 2500, 4990, 5010, 9000, 12000) // (the error text of a failed Marshal grows with the square of the depth)
+	}
+	for i, l := range lengths {
+		c.Case(int64(i), func(k *K) {
+			r := k.Rand()
+			long := randSeq(r, []byte("ACGT"), l)
+			k.Input("member_bytes", l)
+			t, m := trie.New(), newSetModel()
+			for _, s := range []string{"AC", "T", string(long), string(long[:l/2]) + "N", "G"} {
+				t.Add([]byte(s))
+				m.Add(s)
+			}
+			probes := []string{"", "A", string(long[:l/2]), string(long[:l-1]), string(long), string(long) + "A", string(long[:l/2]) + "NN", "N"}
+			if !observeTrie(k, t, m, probes, "long members") {
+				return
+			}
+			if t2 := jsonRebuild(k, t, fmt.Sprintf("member of %d bytes", l)); t2 != nil {
+				if !observeTrie(k, t2, m, probes, "JSON-rebuilt trie with long members") {
+					return
+				}
+				k.Count("long_member_json_roundtrips", 1)
+			} else if k.Failed() {
+				return
+			}
+			if got, want := t.Delete(long[:l/2]), m.Delete(string(long[:l/2])); got != want {
+				k.Failf("delete", "Delete of a %d-byte prefix returned %v, model %v", l/2, got, want)
+				return
+			}
+			observeTrie(k, t, m, probes, "after deleting by a long prefix")
+			k.Count("long_member_cases", 1)
+			k.Nontrivial([]byte(fmt.Sprint("long", l)))
+		})
 	}
 }
